@@ -30,7 +30,7 @@ type CaseC10 struct {
 	PreSteps  []string    `json:"pre_steps,omitempty"`
 	PreKey    string      `json:"pre_key,omitempty"`
 	PreVal    interface{} `json:"pre_val,omitempty"`
-	Unrelated uint16      `json:"unrelated_opts,omitempty"`
+	Unrelated uint32      `json:"unrelated_opts,omitempty"`
 }
 
 func init() { register("C10", checkC10) }
